@@ -150,7 +150,10 @@ theorem C18_trip_clears_metrics (c : Cfg) (b : Brk) (now code : Nat) (orc : Orac
 /-- **effects once per transition**: over any trace (any number of trip/recover cycles, overlapping
     requests) from any breaker, the on-tripped side effect has been launched once per entry into `tripped`
     and the on-standby effect once per entry into `standby`; entries into `tripped` are exactly the
-    completions that tripped -/
+    completions that tripped.  The model counts *launches* of `SideEffect.Exec`: what `Exec` returns (an
+    effect may act and then report an error, which the code only logs) does not enter the model, so the
+    count is one per transition whatever the outcome; the correspondence check runs succeeding and failing
+    effects against these counters. -/
 theorem C18_effects_once (c : Cfg) (b : Brk) (es : List Ev) :
     (run c b es).1.tripped = b.tripped + entries .tripped (b.state :: (states c b es).map (·.state)) ∧
     (run c b es).1.standbys = b.standbys + entries .standby (b.state :: (states c b es).map (·.state)) ∧
